@@ -37,8 +37,10 @@ FAILS = [  # (name, object selector, attr, failing value, direct?)  direct: the 
     ("job deletes more than stored", "job0", "data_stored", (-900, "GB"), False),
     # an input with two raising children (available ram / available compute per instance): only the ram rule fails
     ("utilization rate too low for the base ram consumption", "srv0", "server_utilization_rate", (0.001, "dimensionless"), True),
+    # the previous value is "no value" (no fixed count given): the user puts that same empty object (or a fresh one) back
+    ("count too small, starting from no fixed count (on-premise)", "srv0", "fixed_nb_of_instances", (1, "dimensionless"), True),
 ]
-FOLLOW_UPS = [("job0", "ram_needed", (80, "MB")), ("srv0", "power", (350, "W")), ("st0", "storage_capacity", (3, "TB")), ("net0", "bandwidth_energy_intensity", (0.07, "kWh/GB"))]
+FOLLOW_UPS = [("job0", "ram_needed", (80, "MB")), ("srv0", "fixed_nb_of_instances", (6000, "dimensionless")), ("srv0", "power", (350, "W")), ("st0", "storage_capacity", (3, "TB")), ("net0", "bandwidth_energy_intensity", (0.07, "kWh/GB"))]
 
 
 # known finding D10 (exact scenarios): values recomputed before the failing rule keep their new objects, the reverted input's
@@ -49,7 +51,12 @@ KNOWN_D10 = {("base_ram_consumption above capacity", "reassign=same-object", "gr
              ("fixed_nb_of_instances too small (on-premise)", "reassign=fresh-equal-value", "later-edit-raises"),
              # same root cause, seen by the thorough tier (more follow-up edits): replayed natively on the unchanged tree
              ("storage fixed_nb_of_instances too small", "reassign=fresh-equal-value", "later-edit-raises"),
-             ("job deletes more than stored", "reassign=fresh-equal-value", "later-edit-raises")}
+             ("job deletes more than stored", "reassign=fresh-equal-value", "later-edit-raises"),
+             # a FRESH equal value put back after a failed fixed count: the value that lost its dependants is not the one re-installed,
+             # so a later change of the count is ignored or raises (replayed natively: fixed=1 fails, fixed=<fresh no value>, fixed=6000 -> still 25)
+             ("fixed_nb_of_instances too small (on-premise)", "reassign=fresh-equal-value", "later-edit-stale"),
+             ("count too small, starting from no fixed count (on-premise)", "reassign=fresh-equal-value", "later-edit-raises"),
+             ("count too small, starting from no fixed count (on-premise)", "reassign=fresh-equal-value", "later-edit-stale")}
 
 
 def spec_for(fail_name):
@@ -60,7 +67,7 @@ def spec_for(fail_name):
     s["jobs"]["job0"]["data_stored"] = (-1, "kB")            # a deleting job: base_storage_need = 0 fails
     s["jobs"]["job0"]["ram_needed"] = (2, "GB")
     s["ups"]["up0"]["values"] = [x * 1e6 for x in s["ups"]["up0"]["values"]]
-    if "fixed_nb_of_instances" in fail_name and "storage" not in fail_name:
+    if "fixed_nb_of_instances" in fail_name and "storage" not in fail_name and "starting from no" not in fail_name:
         s["servers"]["srv0"]["fixed_nb_of_instances"] = (5000, "dimensionless")
     if "storage fixed" in fail_name:
         s["storages"]["st0"]["fixed_nb_of_instances"] = (5000, "dimensionless")
@@ -137,7 +144,7 @@ def run(tier, seed, procs=16):
             if (fname, re_, r["status"]) in KNOWN_D10: sig = "D10"
         viol.append({"signature": sig, "what": f"C15 {r['case']}: {r['status']} {r['diff'][:6]}", "input": {"history": r["case"]}})
     return {"evaluations": len(res), "distinct_nontrivial": len(nontrivial),
-            "rule": "one case = (failing edit among 8 raising points, re-assignment of the same previous object | a fresh equal value, one or two failures before recovery, one further valid edit); "
+            "rule": "one case = (failing edit among 9 raising points, re-assignment of the same previous object | a fresh equal value, one or two failures before recovery, one further valid edit); "
                     "model after recovery vs model before the failure (values, inputs, graph links), then vs a system built from the final inputs",
             "samples": samples, "violations": viol, "exhaustive": False,
             "bound": f"7 failure points x 2 re-assignment styles x {4 if tier == 'thorough' else 2} follow-up edits x (once | twice)"}
